@@ -513,7 +513,9 @@ Definition chk_l2_classes (files : list ast) (iface : string) : list N :=
   match front Cli Debug files with
   | Ok mir =>
       match find (fun t => match t with MTIface i => String.eqb (mi_name i) iface | _ => false end) mir with
-      | Some (MTIface top) => map method_class (mnode_funcs (mi_nodes top))
+      | Some (MTIface top) =>
+          (* the flattened interface, root ancestor first *)
+          map method_class (flat_map (fun x => mnode_funcs (mi_nodes x)) (rev (mi_chain top)))
       | _ => []
       end
   | _ => []
